@@ -34,7 +34,7 @@ sys.path.insert(0, os.path.join(os.path.dirname(os.path.dirname(os.path.abspath(
 from translate import c10_findap_numba as _tr  # noqa: E402
 
 ID = "C10"
-LEAN_MODULES = ["PyYetiVerif.Props.C10", "PyYetiVerif.Audit.C10"]
+LEAN_MODULES = ["PyYetiVerif.Props.C10", "PyYetiVerif.Props.C10Fde", "PyYetiVerif.Audit.C10"]
 AUDIT_FILE = "PyYetiVerif/Audit/C10.lean"
 THEOREMS = ["PyYetiVerif.C10." + n for n in (
     "seq_first_selected seq_alternates seq_extremes_within_two_stol seq_end_rule_counterexample "
@@ -42,6 +42,10 @@ THEOREMS = ["PyYetiVerif.C10." + n for n in (
     "default_drift_counterexample variants_differ_counterexample digitize_spec binify_places "
     "binify_conserves cum_count_antitone count_col0_total bincount_sum_total "
     "G2_ge_G1 "
+    "auto_bins_cover binify_auto_conserves amax_le_srs bincount_spec damage_def damage_per_cycle table_scaling "
+    "test_damage_positive test_variance_reproduces_internal test_variance_reproduces test_variance_pvelo_factor "
+    "test_variance_pvelo_counterexample G_b_monotone_in_damage G2_ge_G1_loop psd_quadratic_scaling cycle_table_scaling "
+    "psd_quadratic_scaling_signal "
 ).split()]
 TRUSTED = [
     "correspondence harness harness/props/c10.py (exact comparison on dyadic inputs; numeric 1e-9 for fdepsd sums)",
